@@ -53,7 +53,9 @@ RULE = ("random bytes (1..255) and str drawn from ASCII / Latin-1 / BMP / astral
         "units with zeros; every run first covers each (route {field, item, init-field, new_fixed} x unit width x fit {exact, shorter-by-1, "
         "shorter-by-more, too-long-by-1} x string class {bmp, astral at start/middle/end, several astral, lone surrogates | ascii, "
         "high bytes}) cell 3 times plus ffi.new('T[]') per (width x class), neighbour memory observed after every store (struct "
-        "fields before/after, rows before/after, a 0xA5-filled arena around ffi.new allocations), counts recorded as cell:* in the "
+        "fields before/after, rows before/after, a 0xA5-filled arena around ffi.new allocations), and -- stores that must write the "
+        "terminator themselves -- ffi.new through an allocator that does not clear (open and fixed types) and re-assignment of a "
+        "shorter string to a flexible array member allocated with room; counts recorded as cell:* in the "
         "distribution; a case is non-trivial when the string is non-empty; distinct = distinct (type, op, units, parameters)")
 TRUSTED_EXTRA = ["translate/c15_exprs.py: regex/shape-checked extraction of the tests and arithmetic of wchar_helper_3.h, "
                  "convert_array_from_object, get_new_array_length and b_string into Generated/CharExprs.lean"]
@@ -332,6 +334,33 @@ def gen_grid(rng, sizes):
                 init = {"kind": kind, "v": gen_class_string(rng, cls)}
                 out.append(("new_open|w%d|open|%s" % (w, cls),
                             {"type": T, "size": w, "op": "new_open", "init": init, "maxlens": [], "ns": []}))
+            # stores that must write the terminator themselves: uncleared allocations, flexible array members
+            for fit in ("open", "shorter-by-1", "shorter-by-more", "exact"):
+                for rep in range(GRID_MIN):
+                    T = types[turn % len(types)]
+                    turn += 1
+                    init = {"kind": kind, "v": gen_class_string(rng, cls)}
+                    u = len(oracle_units(init, w))
+                    n = {"open": None, "shorter-by-1": u + 1, "shorter-by-more": u + rng.randint(2, 5), "exact": u}[fit]
+                    out.append(("new_dirty|w%d|%s|%s" % (w, fit, cls),
+                                {"type": T, "size": w, "op": "new_dirty", "init": init, "n": n}))
+            for alloc in ("length", "init"):
+                for rep in range(GRID_MIN):
+                    T = types[turn % len(types)]
+                    turn += 1
+                    prior = {"kind": kind, "v": gen_class_string(rng, cls, 3)}
+                    pu = len(oracle_units(prior, w))
+                    init = {"kind": kind, "v": gen_class_string(rng, cls)}
+                    for _ in range(20):
+                        if len(oracle_units(init, w)) < pu:
+                            break
+                        init = {"kind": kind, "v": gen_class_string(rng, cls)}
+                    else:
+                        init = {"kind": kind, "v": prior["v"][:1]}
+                    room = pu + 1 if alloc == "init" else pu + 1 + rng.randint(0, 3)
+                    out.append(("flex-%s|w%d|shorter|%s" % (alloc, w, cls),
+                                {"type": T, "size": w, "op": "flex", "alloc": alloc, "room": room,
+                                 "prior_init": prior, "init": init}))
             for route in ROUTES:
                 for fit in FITS:
                     for rep in range(GRID_MIN):
@@ -372,6 +401,9 @@ class Runner:
                 raise InfraError("arena too small for %d bytes" % nbytes)
             return ffi.cast("char *", self.arena) + GUARD
         self.new = ffi.new_allocator(alloc, None, True)
+        # the same arena, NOT cleared after allocation: the terminator must be written by the store itself
+        self.new_dirty = ffi.new_allocator(alloc, None, False)
+        self.flex = {}
 
     def arena_prepare(self):
         self.ffi.buffer(self.arena)[:] = b"\xa5" * ARENA
@@ -383,6 +415,13 @@ class Runner:
         n = self.arena_size or 0
         bad = [i - GUARD for i in range(ARENA) if not (GUARD <= i < GUARD + n) and raw[i] != 0xA5]
         return bad
+
+    def flex_for(self, T):
+        if T not in self.flex:
+            name = "c15_flex_%s" % T.replace(" ", "_")
+            self.ffi.cdef("struct %s { int n; %s data[]; };" % (name, T))
+            self.flex[T] = name
+        return self.flex[T]
 
     def struct_for(self, T, n):
         key = (T, n)
@@ -489,6 +528,81 @@ class Runner:
                     check_unpack(p, units, k, "unpack")
             return obs, problems
 
+        if op == "new_dirty":
+            # ffi.new through an allocator that does not clear: the array starts as 0xA5 bytes
+            init, n = case["init"], case.get("n")
+            val = to_py(init)
+            fill = {1: 0xA5, 2: 0xA5A5, 4: 0xA5A5A5A5}[size]
+            decl = "%s[]" % T if n is None else "%s[%d]" % (T, n)
+            self.arena_prepare()
+            st, p = attempt(lambda: self.new_dirty(decl, val))
+            want = expect_store(init, n)
+            damage = self.arena_damage()
+            units = read_units(ffi, p, size) if st == "ok" else None
+            if damage:
+                problems.append(("store", "ffi.new(%r, %r) (uncleared allocator) wrote outside its allocation, at byte offsets %s"
+                                 % (decl, val, damage[:8])))
+            total = len(units) if units is not None else (n if n is not None else 0)
+            line = "%s %d %s %s" % ("assignopen" if n is None else "assign", size, lst([fill] * total), tok(init))
+            if st == "err":
+                if want != ("err", p):
+                    problems.append(("store", "%s <- %r raised %s, expected %r" % (decl, val, p, want)))
+                if n is not None:
+                    obs.append((line, "err " + p))
+                return obs, problems
+            obs.append((line, "ok " + lst(units)))
+            if want[0] == "err":
+                problems.append(("store", "%s <- %r was accepted, expected %s" % (decl, val, want[1])))
+                return obs, problems
+            expect_total = len(want[1]) if n is None else n
+            full = want[1] + [fill] * (expect_total - len(want[1]))
+            if units != full:
+                problems.append(("store", "%s <- %r in uncleared (0xA5) memory holds units %s, expected the string, one zero unit "
+                                 "when there is room, and untouched memory after it: %s" % (decl, val, units, full)))
+            st2, back = check_string(p, units, -1, len(p), "string")
+            if (st2, back) != ("ok", val):
+                problems.append(("roundtrip", "ffi.string(new_allocator(clear=False)(%r, s)) = %r for s = %r" % (decl, back, val)))
+            check_unpack(p, units, len(want[1]), "unpack")     # the string and its terminator, not the 0xA5 filler
+            return obs, problems
+
+        if op == "flex":
+            # struct { int n; T data[]; } allocated with room, holding `prior`, then re-assigned the shorter `init`
+            init, prior, room = case["init"], case["prior_init"], case["room"]
+            val, pval = to_py(init), to_py(prior)
+            sname = self.flex_for(T)
+            if case["alloc"] == "length":
+                p = ffi.new("struct %s *" % sname, [7, room])
+                p.data = pval
+            else:
+                p = ffi.new("struct %s *" % sname, {"n": 7, "data": pval})
+            off = ffi.offsetof("struct %s" % sname, "data") // size
+            whole = lambda: list(struct.unpack("<%d%s" % (ffi.sizeof(p[0]) // size, FMT[size]),
+                                               bytes(ffi.buffer(p, ffi.sizeof(p[0])))))
+            before = whole()
+            pu = oracle_units(prior, size)
+            if before[off:off + len(pu) + 1] != pu + [0] or len(before) - off != room:
+                problems.append(("store", "flexible member after the first store of %r holds %s (room %d)" % (pval, before[off:], room)))
+
+            def do():
+                p.data = val
+            st, e = attempt(do)
+            after = whole()
+            line = "assignopen %d %s %s" % (size, lst(before[off:]), tok(init))
+            if st == "err":
+                obs.append((line, "err " + e))
+                problems.append(("store", "p.data = %r raised %s" % (val, e)))
+                return obs, problems
+            obs.append((line, "ok " + lst(after[off:])))
+            u = oracle_units(init, size)
+            expect_after = before[:off] + u + [0] + before[off + len(u) + 1:]
+            if after != expect_after:
+                problems.append(("store", "p.data = %r over a flexible %s member holding %s gives %s, expected the string, one zero "
+                                 "unit and nothing else: %s" % (val, T, before[off:], after[off:], expect_after[off:])))
+            st2, back = check_string(p.data, after[off:], -1, len(p.data), "string")
+            if (st2, back) != ("ok", val):
+                problems.append(("roundtrip", "ffi.string(p.data) after p.data = %r over %r is %r" % (val, pval, back)))
+            return obs, problems
+
         if op == "assign":
             init, n, prior, cont = case["init"], case["n"], case["prior"], case["container"]
             val = to_py(init)
@@ -579,7 +693,8 @@ def nontrivial_key(case):
     if not body:
         return None
     extra = (case.get("n"), case.get("container"), case.get("maxlen"), case.get("n_units"), case.get("off"),
-             tuple(case.get("prior", ())))
+             tuple(case.get("prior", ())), case.get("alloc"), case.get("room"),
+             tuple(case.get("prior_init", {}).get("v", ())))
     return (case["type"], case["op"], case.get("init", {}).get("kind"), tuple(body), extra)
 
 
@@ -591,7 +706,7 @@ def classify(ctx, case):
         right = "bytes" if case["size"] == 1 else "str"
         if init["kind"] != right:
             ctx.count("store:wrong-kind")
-        elif "n" in case:
+        elif case.get("n") is not None:
             u = len(oracle_units(init, case["size"]))
             ctx.count("store:" + ("too-long" if u > case["n"] else "exact-fit" if u == case["n"] else "shorter"))
         if init["kind"] == "str":
@@ -700,6 +815,12 @@ def fixed_cases(sizes):
          "init": {"kind": "str", "v": [0x1F600]}, "prior": [0x77, 0x78], "around": [1, 2, 3, 4]},
         {"type": "char16_t", "size": 2, "op": "new_open", "init": {"kind": "str", "v": [0xD83D, 0xDE00]},
          "maxlens": [1], "ns": [2]},
+        # the store itself must write the terminator: uncleared allocation, flexible array member re-assigned
+        {"type": "char", "size": 1, "op": "new_dirty", "init": {"kind": "bytes", "v": list(b"hello")}, "n": None},
+        {"type": "char", "size": 1, "op": "flex", "alloc": "length", "room": 9,
+         "prior_init": {"kind": "bytes", "v": list(b"ABCDEFGH")}, "init": {"kind": "bytes", "v": list(b"xy")}},
+        {"type": "char", "size": 1, "op": "flex", "alloc": "init", "room": 9,
+         "prior_init": {"kind": "bytes", "v": list(b"ABCDEFGH")}, "init": {"kind": "bytes", "v": list(b"xy")}},
     ]
 
 
